@@ -824,3 +824,79 @@ def finish(rep, pid):
         print("PENDING-FINDING: property=%s %s (reproduced %d times; proposed entry: notes/proposed_known_findings.json)"
               % (pid, D10_WHAT, pend[D10_SIG]))
     return rep.finish({D10_SIG: lambda f: bool(f["sig"].get("d10"))}, {})
+
+
+# ------------------------------------------------------------------------------------- shared run skeleton
+def explore(ctx, rep, pid, cases, label, oracles, nontrivial):
+    """run the driver on `cases` (all "recv" or all "send"), evaluate the oracles on the real log, then the
+    model and the Boolean properties inside Coq.  Returns True iff a correspondence obligation broke."""
+    if not cases:
+        return False
+    obs = C.run_driver(ctx, "pipeline_driver", cases)
+    keep_c, keep_o = [], []
+    for c, o in zip(cases, obs):
+        rep.case(c, nontrivial(c))
+        if "_crash" in o:
+            rep.fail("driver crashed", c, observed=o["_crash"])
+            continue
+        per, glob, late, stray = split_log(c, o["log"])
+        f = Failer(rep, pid, c)
+        if stray:
+            f("events outside any message's task", {}, stray)
+        if c["type"] == "recv":
+            count_recv(rep, c, per, late)
+            for orc in oracles:
+                orc(c, per, late, f)
+        else:
+            rep.count("sends:%d" % len(c["sends"]))
+            rep.count("stack:%d" % len(c["mws"]))
+            for S in c["sends"]:
+                rep.count("kick:" + S.get("kick", "ok"))
+            for evs in per:
+                rep.count("send-branch:" + ("sent" if any(e[0] == "sent" for e in evs) else
+                                            "crash:" + [e for e in evs if e[0] == "crash"][0][1]))
+                for e in evs:
+                    if e[0] == "hook":
+                        rep.count("hook:" + e[1])
+            oracle_c10_send(c, per, f)
+        keep_c.append(c)
+        keep_o.append(o)
+    cb, kb, fails = coq_compare(ctx, label, keep_c, keep_o)
+    rep.corr(label + ":model=implementation", len(keep_c), cb, fails, lambda i: keep_c[i])
+    rep.corr(label + ":Boolean property on observations", len(keep_c), kb, [], lambda i: keep_c[i])
+    if not cb and not fails:
+        rep.traces += sum(len(c["msgs"]) if c["type"] == "recv" else len(c["sends"]) for c in keep_c)
+    return bool(cb or kb or fails)
+
+
+def replay(ctx, path, oracles):
+    rec = json.load(open(path))
+    c = rec["case"]
+    obs = C.run_driver(ctx, "pipeline_driver", [c], nproc=1)[0]
+    print("case:", json.dumps(c))
+    if "_crash" in obs:
+        print("driver crashed:", obs["_crash"])
+        return 1
+    per, glob, late, stray = split_log(c, obs["log"])
+    for i, evs in enumerate(per):
+        print("implementation, %s %d:" % ("message" if c["type"] == "recv" else "send", i),
+              [e[0] if e[0] != "hook" else "%s[%d]" % (e[1], e[2]) for e in evs if e[0] not in ("hook.exit", "ack.exit")])
+    print("model:", coq_show(ctx, c, obs)[-3000:])
+    print("first difference per message (None = equal):", coq_diff(ctx, c, obs)[-800:])
+    bad = []
+
+    def f(what, sig, evs):
+        bad.append((what, sig, is_d10(c, sig)))
+    if c["type"] == "recv":
+        for orc in oracles:
+            orc(c, per, late, f)
+    else:
+        oracle_c10_send(c, per, f)
+    for b in bad:
+        print("VIOLATED%s:" % (" (known finding sync_generator_exit)" if b[2] else ""), b[0], b[1])
+    print("holds" if not bad else "VIOLATED")
+    return 0 if not bad else 1
+
+
+def load_corpus_cases(pid):
+    return [c["case"] if "case" in c else c for _, c in C.load_corpus(pid)]
